@@ -97,6 +97,22 @@ func leafText(v any) (string, bool) {
 		t := tv.String()
 		return t, textInDomain(t)
 	}
+	// a text / number / bool value of a defined type without a String method (type Attr string, type Level int) is a
+	// text / number / bool value: it reads as its underlying value does
+	switch rv := reflect.ValueOf(v); rv.Kind() {
+	case reflect.String:
+		return rv.String(), textInDomain(rv.String())
+	case reflect.Bool:
+		return strconv.FormatBool(rv.Bool()), true
+	case reflect.Int, reflect.Int8, reflect.Int16, reflect.Int32, reflect.Int64:
+		return strconv.FormatInt(rv.Int(), 10), true
+	case reflect.Uint, reflect.Uint8, reflect.Uint16, reflect.Uint32, reflect.Uint64:
+		return strconv.FormatUint(rv.Uint(), 10), true
+	case reflect.Float64:
+		return strconv.FormatFloat(rv.Float(), 'g', -1, 64), true
+	case reflect.Float32:
+		return strconv.FormatFloat(rv.Float(), 'g', -1, 32), true
+	}
 	return "", false
 }
 
